@@ -51,7 +51,7 @@ def c07_profile(rng):
 
 
 def header_style(rng):
-    k = rng.choice(["same", "upper", "title", "pad", "mixed"])
+    k = rng.choice(["same", "upper", "title", "pad", "mixed", "pad_unicode"])
 
     def f(c):
         if k == "upper":
@@ -62,6 +62,10 @@ def header_style(rng):
             c = "".join(ch.upper() if rng.random() < 0.5 else ch for ch in c)
         elif k == "pad":
             c = " " * rng.randint(0, 3) + c + " " * rng.randint(0, 3)
+        elif k == "pad_unicode":
+            # padding as spreadsheets and web pages produce it: no-break space, ideographic space, em space, tab
+            ws = ["\u00a0", "\u3000", "\u2003", "\t", " "]
+            c = "".join(rng.choice(ws) for _ in range(rng.randint(0, 2))) + c + "".join(rng.choice(ws) for _ in range(rng.randint(0, 2)))
         return c
     return f
 
@@ -90,6 +94,10 @@ def relayout_files(rng, rows):
         rng.shuffle(cols)
         n_extra = rng.choice([0, 0, 1, 2, 3, 6, 10])
         extras = ["x-col-%d" % i for i in range(n_extra)] + [""] * rng.choice([0, 0, 0, 1, 2])    # spacer columns without a name
+        if rng.random() < 0.25:
+            # unrecognised columns whose names extend recognised ones
+            extras += rng.sample(["Commission (est.)", "Shares (lots)", "currency (orig)", "memo 2", "security id", "trade date (local)",
+                                  "amount/share (gross)", "exchange rate (bank)", "affiliate (old)"], rng.randint(1, 3))
         layout = cols + extras
         rng.shuffle(layout)
         hs = header_style(rng)
@@ -369,13 +377,26 @@ AF_SPELLINGS = {"default": ["", "Default", "default", "DEFAULT", " Default "], "
                 "kid": ["Kid", "kid", "KID"], "kid (R)": ["Kid (R)", "kid (r)"]}
 
 
-def respell_affiliates(rng, rows):
-    """The same affiliates written in other, equivalent spellings (case, padding, blank for the default one), row by row."""
+def respell_affiliates(rng, rows, lower=None):
+    """The same affiliates written in other, equivalent spellings (case, padding, blank for the default one): row by row,
+    or one spelling per affiliate for the whole input (lower=True: all lower case)."""
+    per_input = {}
+    consistent = lower is not None or rng.random() < 0.5
     for r in rows:
         if r["action"] == "Split" and not (r.get("af") or "").strip():
-            continue        # blank on a split means "all affiliates", not the default one
+            # blank on a split means "all affiliates", not the default one; the reserved name says the same
+            if rng.random() < 0.15:
+                r["af"] = rng.choice(["__global__", "__GLOBAL__", "__Global__"])
+            continue
         k = ref.af_norm(r.get("af"))
-        if k in AF_SPELLINGS and rng.random() < 0.6:
+        if k not in AF_SPELLINGS:
+            continue
+        if consistent:
+            if k not in per_input:
+                opts = [x for x in AF_SPELLINGS[k] if x.strip()]
+                per_input[k] = next((x for x in opts if x == x.lower()), opts[0]) if lower else (opts[0] if lower is False else rng.choice(opts))
+            r["af"] = per_input[k]
+        elif rng.random() < 0.6:
             r["af"] = rng.choice(AF_SPELLINGS[k])
             if r["action"] == "Split" and not r["af"].strip():
                 r["af"] = "Default"
@@ -414,9 +435,15 @@ def c08_population(seed, n):
                  mkrow("BZERO", "%d-06-03" % y0, "Sell", "", shares="5", aps=gen.dec_str(10 + g / 5, 6), cur="CAD"),
                  mkrow("BZERO", "%d-06-03" % (y0 + 1), "Sell", "", shares="5", aps=gen.dec_str(10 - g / 5, 6), cur="CAD")]
             b = {"rows": list(b["rows"]) + z, "init": b["init"], "features": b.get("features", [])}
-        if rng.random() < 0.35:
+        mode = rng.random()
+        if mode < 0.25:
             respell_affiliates(rng, a["rows"])
             respell_affiliates(rng, b["rows"])
+        elif mode < 0.4:
+            # one input writes its affiliates in lower case throughout, the other capitalised throughout
+            first_lower = rng.random() < 0.5
+            respell_affiliates(rng, a["rows"], lower=first_lower)
+            respell_affiliates(rng, b["rows"], lower=not first_lower)
         # random interleaving preserving each side's own order
         ra, rb = list(a["rows"]), list(b["rows"])
         u = []
